@@ -1,11 +1,12 @@
 (** The int32 arithmetic of /repo/bitstr/bitstr.go made explicit.
     [New]'s [fromBit], [toBit], [fromByte], [toByte], [l] are Go [int32]; [Len]
     computes in [int32].  Model/Bitstr.v uses unbounded [Z] for them; here every
-    int32 operation wraps ([i32], arithmetic shift [sar32], [sshl32]).  The two
-    models agree whenever [toBit + 7 < 2^31] (resp. [8 * len(bs) < 2^31]) —
-    Proofs/Bitstr32Proofs.v — and differ at the top of the int32 range, where
-    [(toBit + 7) >> 3] overflows: [New32] then fails in [make] like the real code
-    ("makeslice: len out of range"). *)
+    int32 operation wraps ([i32], arithmetic shifts [sar32]/[sar64], [sshl32]).
+    Since the fix b2a771a the end byte is computed in int64
+    ([int32((int64(toBit) + 7) >> 3)]), so nothing overflows on the int32 range:
+    Proofs/Bitstr32Proofs.v shows [New32 = New] for all 0 <= from <= to < 2^31 and
+    [Len32 = Len] whenever Len's value fits int32.  The pre-fix arithmetic is
+    Model/LegacyBitstr32.v. *)
 From Coq Require Import ZArith List Bool.
 From Low Require Import Lib.MachInt Lib.Bits Lib.BitSeq Lib.Lex Model.Bitstr.
 Import ListNotations.
@@ -15,7 +16,8 @@ Definition New32 (s : list Z) (fromBit toBit : Z) : option (list Z) :=
   if (fromBit =? toBit) && (Z.land fromBit 7 =? 0) then Some [255]
   else
     let fromByte := sar32 fromBit 3 in
-    let toByte := sar32 (i32 (toBit + 7)) 3 in
+    (* toByte := int32((int64(toBit) + 7) >> 3) *)
+    let toByte := i32 (sar64 (i64 (toBit + 7)) 3) in
     let l := i32 (toByte - fromByte) in
     (* bitStr := make([]byte, l+1): l+1 is int32 arithmetic; a negative length panics *)
     let n := i32 (l + 1) in
